@@ -249,9 +249,10 @@ theorem entryOK_single_form (o : OpShape) (hk : o.kind = .single) (hok : entryOK
     · simp [hm] at h
     · simp [hp] at h
 
-/-- **single_tx_atomic for the code's own table**: every `single` entry of
-`codeShapes`, every statement count, every failure index. -/
-theorem codeShapes_atomic (o : OpShape) (ho : o ∈ codeShapes) (hk : o.kind = .single)
+/-- **single_tx_atomic for any table that passes the shape check**: every
+`single` or `indexer` entry, every statement count, every failure index. -/
+theorem table_atomic (t : List OpShape) (ht : ShapeOK t = true) (o : OpShape) (ho : o ∈ t)
+    (hk : o.kind = .single ∨ o.kind = .indexer)
     (m : Sem α β) (view : α → β) (n : Nat) (d0 : α) (k : Option Nat)
     (hgoal : m.goal = view (iter m.eff 0 n d0))
     (hview : o.mirrored = false → view (iter m.eff 0 n d0) = view d0) :
@@ -259,26 +260,84 @@ theorem codeShapes_atomic (o : OpShape) (ho : o ∈ codeShapes) (hk : o.kind = .
     ((r.2 = .failed ∧ r.1.db = d0 ∧ r.1.mirror = view d0) ∨
      (r.2 = .done ∧ r.1.db = iter m.eff 0 n d0 ∧ r.1.mirror = view (iter m.eff 0 n d0))) ∧
     agrees view r.1 ∧ r.1.tx = none := by
-  have hall := shapeOK_codeShapes
-  simp only [ShapeOK, List.all_eq_true] at hall
-  have hok := hall o ho
-  have hform := entryOK_single_form o hk hok [n]
-  simp only [entryOK, hk, Bool.and_eq_true, List.isEmpty_iff, List.all_eq_true, Bool.or_eq_true,
-    Bool.not_eq_true'] at hok
-  obtain ⟨⟨hpre, hpost⟩, _⟩ := hok
-  have hexp : o.expand [n] = singleTx n o.post := by simp [OpShape.expand, hk, hpre]
+  simp only [ShapeOK, List.all_eq_true] at ht
+  have hok := ht o ho
+  -- what the check says about the entry, for both kinds
+  have hfacts : o.pre = [] ∧ (∀ x ∈ o.post, x.isMirror = true) ∧ (o.mirrored = true → o.post ≠ []) := by
+    rcases hk with hk | hk
+    · simp only [entryOK, hk, Bool.and_eq_true, List.isEmpty_iff, List.all_eq_true, Bool.or_eq_true,
+        Bool.not_eq_true'] at hok
+      obtain ⟨⟨hpre, hpost⟩, hmir⟩ := hok
+      refine ⟨hpre, hpost, ?_⟩
+      intro hm hp
+      rcases hmir with h | h
+      · simp [hm] at h
+      · simp [hp] at h
+    · simp only [entryOK, hk, Bool.and_eq_true, List.isEmpty_iff, List.all_eq_true, Bool.not_eq_true'] at hok
+      obtain ⟨⟨hpre, hpost⟩, hne⟩ := hok
+      exact ⟨hpre, hpost, fun _ hp => by simp [hp] at hne⟩
+  obtain ⟨hpre, hpost, hmir⟩ := hfacts
+  have hexp : o.expand [n] = singleTx n o.post := by
+    rcases hk with hk | hk <;> simp [OpShape.expand, hk, hpre]
   have hv : o.post = [] → view (iter m.eff 0 n d0) = view d0 := by
     intro hp
     apply hview
     cases hm : o.mirrored with
     | false => rfl
-    | true => exact absurd hp (hform.2 hm)
+    | true => exact absurd hp (hmir hm)
   have h := single_tx_atomic m view (singleTx n o.post) ⟨n, o.post, rfl, hpost⟩ d0 k n o.post rfl hpost hgoal hv
   simp only at h
   rw [hexp]
   rcases h with ⟨h1, h2, h3, h4⟩ | ⟨h1, h2, h3, h4⟩
   · exact ⟨Or.inl ⟨h1, h2, h3⟩, by simp [agrees, h2, h3], h4⟩
   · exact ⟨Or.inr ⟨h1, h2, h3⟩, by simp [agrees, h2, h3], h4⟩
+
+/-- … for the table read from the code -/
+theorem codeShapes_atomic (o : OpShape) (ho : o ∈ codeShapes) (hk : o.kind = .single)
+    (m : Sem α β) (view : α → β) (n : Nat) (d0 : α) (k : Option Nat)
+    (hgoal : m.goal = view (iter m.eff 0 n d0))
+    (hview : o.mirrored = false → view (iter m.eff 0 n d0) = view d0) :
+    let r := exec m (o.expand [n]) k (quiescent view d0)
+    ((r.2 = .failed ∧ r.1.db = d0 ∧ r.1.mirror = view d0) ∨
+     (r.2 = .done ∧ r.1.db = iter m.eff 0 n d0 ∧ r.1.mirror = view (iter m.eff 0 n d0))) ∧
+    agrees view r.1 ∧ r.1.tx = none :=
+  table_atomic codeShapes shapeOK_codeShapes o ho (Or.inl hk) m view n d0 k hgoal hview
+
+/-! ### the repaired shapes (known-findings.d/txn-fix-2,3,4), selectable per repair -/
+
+theorem repaired_entries_ok : repairedShapes.all (fun p => entryOK p.2) = true := by decide
+
+/-- Whatever subset of the repairs has been made, the table the driver uses
+for that tree (`codeShapes` plus the repaired forms of `UpdateSettings`,
+`pin.Update`, `syncDB`) passes the shape check … -/
+theorem shapeOK_shapeTable (fixed : List String) : ShapeOK (shapeTable fixed) = true := by
+  simp only [ShapeOK, shapeTable, List.all_append, Bool.and_eq_true]
+  refine ⟨shapeOK_codeShapes, ?_⟩
+  rw [List.all_eq_true]
+  intro o ho
+  obtain ⟨p, hp, rfl⟩ := List.mem_map.mp ho
+  exact List.all_eq_true.mp repaired_entries_ok p (List.mem_filter.mp hp).1
+
+/-- … and every `single`/`indexer` entry of it is all-or-nothing at every failure index. -/
+theorem shapeTable_atomic (fixed : List String) (o : OpShape) (ho : o ∈ shapeTable fixed)
+    (hk : o.kind = .single ∨ o.kind = .indexer)
+    (m : Sem α β) (view : α → β) (n : Nat) (d0 : α) (k : Option Nat)
+    (hgoal : m.goal = view (iter m.eff 0 n d0))
+    (hview : o.mirrored = false → view (iter m.eff 0 n d0) = view d0) :
+    let r := exec m (o.expand [n]) k (quiescent view d0)
+    ((r.2 = .failed ∧ r.1.db = d0 ∧ r.1.mirror = view d0) ∨
+     (r.2 = .done ∧ r.1.db = iter m.eff 0 n d0 ∧ r.1.mirror = view (iter m.eff 0 n d0))) ∧
+    agrees view r.1 ∧ r.1.tx = none :=
+  table_atomic (shapeTable fixed) (shapeOK_shapeTable fixed) o ho hk m view n d0 k hgoal hview
+
+/-- with all three repairs selected the three operations are in the checked table, in their repaired form,
+and nothing is left in the table of deviant shapes; with none selected they are all deviant -/
+example : (["S.UpdateSettings", "P.Update", "I.SyncDB"].map fun n =>
+      ((findShapeIn ["settings", "pin", "syncdb"] n).map fun o => (entryOK o, o.post))) =
+    [some (true, [.memWrite]), some (true, [.memWrite]), some (true, [.memWrite])] ∧
+    deviantTable ["settings", "pin", "syncdb"] = [] ∧
+    (["S.UpdateSettings", "P.Update", "I.SyncDB"].map fun n => (findShapeIn [] n).map entryOK) =
+    [some false, some false, some false] := by decide
 
 /-- the table is not empty and has manager entries with mirrors -/
 example : codeShapes.length = 51 ∧ (codeShapes.filter (·.mirrored)).length = 9 := by decide
